@@ -19,7 +19,12 @@ pub fn session_config(four: bool, ap: &str) -> SessionConfig {
             let (fam, d) = e.split_once(':').unwrap();
             let (a, s) = fam.split_once('.').unwrap();
             let dir = AddpathDirection::try_from(d.parse::<u8>().unwrap()).unwrap();
-            sc.add_addpath(AfiSafiType::from((a.parse::<u16>().unwrap(), s.parse::<u8>().unwrap())), dir);
+            let fam = AfiSafiType::from((a.parse::<u16>().unwrap(), s.parse::<u8>().unwrap()));
+            // a configuration that is set more than once (a session that negotiates again, a config object that is reused): the
+            // last direction set for a family is the one that counts
+            let other = match dir { AddpathDirection::Receive => AddpathDirection::Send, _ => AddpathDirection::Receive };
+            sc.add_addpath(fam, other);
+            sc.add_addpath(fam, dir);
         }
     }
     sc
@@ -35,6 +40,14 @@ fn g<T>(f: impl FnOnce() -> Result<T, ParseError>, show: impl FnOnce(T) -> Strin
 fn nlri_hex<O: AsRef<[u8]>>(n: &Nlri<O>) -> String {
     let mut v = Vec::new();
     n.compose(&mut v).unwrap();
+    // the item's own accessors and its Display are part of "an accessor of an accepted message": they run here, under the
+    // caller's guard; what they return is not printed
+    let _ = format!("{n}");
+    match n {
+        Nlri::Ipv4RouteTarget(rt) => { let _ = (rt.nlri().origin_as(), rt.nlri().route_target(), rt.nlri().is_default()); }
+        Nlri::Ipv4RouteTargetAddpath(rt) => { let _ = (rt.nlri().origin_as(), rt.nlri().route_target(), rt.nlri().is_default()); }
+        _ => {}
+    }
     format!("{}~{}", nt_s(Some(n.nlri_type())), hex(&v))
 }
 
